@@ -153,7 +153,47 @@ func (c *Ctx) Print(q *Query, forCVC5 bool) string {
 			for _, b := range t.Args[1:] {
 				bs = append(bs, fmt.Sprintf("(%s %s)", quoteSym(b.Name), b.Sort))
 			}
-			return fmt.Sprintf("(forall (%s) %s)", strings.Join(bs, " "), expr(t.Args[0]))
+			// subterms that mention a bound variable cannot be define-fun'ed; the ones used more than once inside this
+			// body are let-bound (innermost-first), otherwise a shared DAG is printed as a tree
+			lrefs := map[int]int{}
+			var lorder []*Term
+			var lvisit func(x *Term)
+			lvisit = func(x *Term) {
+				if !hasBound[x.ID] || len(x.Args) == 0 {
+					return
+				}
+				if _, done := named[x.ID]; done {
+					return
+				}
+				lrefs[x.ID]++
+				if lrefs[x.ID] > 1 {
+					return
+				}
+				if x.Op != OForall {
+					for _, a := range x.Args {
+						lvisit(a)
+					}
+				}
+				lorder = append(lorder, x)
+			}
+			lvisit(t.Args[0])
+			var lets []string
+			var bound []int
+			for _, x := range lorder {
+				if lrefs[x.ID] < 2 || x.Op == OForall {
+					continue
+				}
+				e := expr(x)
+				n := fmt.Sprintf("l!%d", x.ID)
+				lets = append(lets, fmt.Sprintf("(let ((%s %s)) ", n, e))
+				named[x.ID] = n
+				bound = append(bound, x.ID)
+			}
+			body := expr(t.Args[0])
+			for _, id := range bound {
+				delete(named, id)
+			}
+			return fmt.Sprintf("(forall (%s) %s%s%s)", strings.Join(bs, " "), strings.Join(lets, ""), body, strings.Repeat(")", len(lets)))
 		}
 		parts := make([]string, 0, len(t.Args)+1)
 		parts = append(parts, headOf(t))
